@@ -260,7 +260,11 @@ func runSym(g *gctx, gr group) {
 	if !sp.aead {
 		tag = tagFiller()
 	}
-	dec("ok", "ok", ct, keyBytes, nonceBytes, tag, ad, nil)
+	okExp := "ok"
+	if sp.kw && n == 0 {
+		okExp = "any" // Wrap accepts an empty key, Unwrap rejects the resulting IV-only message
+	}
+	dec("ok", okExp, ct, keyBytes, nonceBytes, tag, ad, nil)
 	if sp.aead {
 		dec("wrong-tag", "err", ct, keyBytes, nonceBytes, flip(tag, g.round), ad, nil)
 		badTag := [][]byte{tag[:len(tag)-1], nil, append(clone(tag), 0x5a), tag[:1]}[g.round%4]
